@@ -1,7 +1,7 @@
 """C18 - a client refuses server-initiated actions it did not enable.
 
 bfs on sched-evt: BFS over client feature-toggle histories (request_x11 granted/denied,
-request_forward_agent, request_port_forward granted/denied, cancel_port_forward) on two live
+request_forward_agent, request_port_forward granted/denied, cancel_port_forward confirmed/refused) on two live
 transports; in every state reached, every server-initiated action (global requests, channel opens
 of every kind, channel requests of every type) is executed on a fresh replay of the history and the
 client's complete reaction is compared with the reference table vmc/refs/clientgate.py.
@@ -17,7 +17,9 @@ META = {
     "technique": "explicit-state BFS over client toggle histories (prefix replay on two live transports) x "
                  "exhaustive menu of server-initiated actions, judged by a reference table",
     "text": "States = client toggle histories over {request_x11 granted, request_x11 denied, request_forward_agent, "
-            "request_port_forward granted, request_port_forward denied, cancel_port_forward}: BFS to depth 4 "
+            "request_port_forward granted, request_port_forward denied, cancel_port_forward confirmed by the "
+            "server, cancel_port_forward answered with REQUEST_FAILURE} (every client call x every answer the "
+            "server can give to it): BFS to depth 4 "
             "merged on (x11/agent/tcp handler set in the implementation, reference state), and "
             "additionally every unmerged history of length <=2 (quick) / <=3 (thorough). In each, every server "
             "action: GLOBAL_REQUEST {tcpip-forward, cancel-tcpip-forward, keepalive@openssh.com, "
@@ -25,7 +27,8 @@ META = {
             "x11, auth-agent@openssh.com, forwarded-tcpip, direct-tcpip, unknown}; CHANNEL_REQUEST {exec, shell, "
             "subsystem, pty-req, env, x11-req, auth-agent-req@openssh.com, window-change, xon-xoff, exit-status, "
             "exit-signal, unknown} x want_reply on an open session channel. One execution per (history, action).",
-    "note": "server = real paramiko Transport emitting hand-built (well-formed) messages; the reference demands "
+    "note": "server = real paramiko Transport emitting hand-built (well-formed) messages (its REQUEST_SUCCESS to a "
+            "cancel is rewritten to REQUEST_FAILURE in its packetizer for the refused-cancel toggle); the reference demands "
             "only refusal: never REQUEST_SUCCESS, no acceptance of a channel kind that is not enabled, never "
             "CHANNEL_SUCCESS for exec/shell/subsystem/pty-req; over-refusal is accepted",
     "design_ref": "4/C18",
@@ -93,6 +96,13 @@ def do_toggle(p, srv, tog, accepted):
             p.tc.request_port_forward(ADDR, PORT)
         elif tog == "pf_cancel":
             p.tc.cancel_port_forward(ADDR, PORT)
+        elif tog == "pf_cancel_refused":
+            # the server's answer to the cancel leaves as REQUEST_FAILURE instead of REQUEST_SUCCESS
+            p.ts.packetizer.hook = lambda pk, raw, n: [b"\x52"] if raw[0] == 81 else None
+            try:
+                p.tc.cancel_port_forward(ADDR, PORT)
+            finally:
+                p.ts.packetizer.hook = None
         else:
             raise ValueError(tog)
         return "ok"
@@ -110,7 +120,7 @@ def execute(hist, action):
 
     def body(s):
         srv = F.ScriptedServer()
-        p = F.Pair(server=srv).up()
+        p = F.Pair(server=srv, server_packetizer=CF.EditPacketizer).up()
         accepted = []
         out["toggles"] = [do_toggle(p, srv, t, accepted) for t in hist]
         s.quiesce()
